@@ -77,11 +77,16 @@ def one(args):
         with open(shim, "w") as f:
             f.write(SHIM)
         os.chmod(shim, os.stat(shim).st_mode | stat.S_IEXEC)
+    # the string form passes ONE argument, whatever it contains: the include directory is reached through a
+    # path with a blank in it
+    spaced = os.path.join(sub, "inc dir")
+    if not os.path.exists(spaced):
+        os.symlink(FAKE, spaced)
     if form == "list":
         cpp_args = ["-std=" + d, "-nostdinc", "-I" + FAKE]
         os.environ.pop("SHIM_EXTRA", None)
     else:
-        cpp_args = "-I" + FAKE
+        cpp_args = "-I" + spaced
         os.environ["SHIM_EXTRA"] = "-std=%s -nostdinc" % d
     try:
         ast = parse_file(src, use_cpp=True, cpp_path=shim, cpp_args=cpp_args)
@@ -89,10 +94,12 @@ def one(args):
         return (h, d, form, "parse_file raised %s: %s" % (type(e).__name__, str(e)[:100]), None)
     argv = open(shim + ".argv").read().split("\n")[:-1]
     want = [a.replace("<FILE>", src) for a in argv_model[1:]]
+    if form == "str":
+        want = [("-I" + spaced) if a == "-I" + FAKE else a for a in want]
     if argv != want:
         return (h, d, form, "argv handed to cpp is %s, the model says %s" % (argv, want), None)
     # by hand
-    text = subprocess.check_output(["cpp", "-std=" + d, "-nostdinc", "-I" + FAKE, src], text=True)
+    text = subprocess.check_output(["cpp", "-std=" + d, "-nostdinc", "-I" + (spaced if form == "str" else FAKE), src], text=True)
     try:
         byhand = c_parser.CParser().parse(text, src)
     except Exception as e:
